@@ -20,6 +20,7 @@ import (
 	"github.com/tmpim/casket/casketfile"
 	_ "github.com/tmpim/casket/caskethttp"
 
+	"verifharness/facts"
 	"verifharness/hx"
 )
 
@@ -546,6 +547,68 @@ func c11KeysOK(cfg string) bool {
 	return true
 }
 
+// c11SiteCases: the self-check of the index-site extractor.  For every constant index site x[k] the extractor found
+// (the sites the regenerated obligations are about) the real setup is driven with the argument counts around the
+// boundary — 0 … k+2 values — in the place the site reads them from: after each sub-block keyword of the enclosing
+// `case "kw":` clause, or directly after the directive when the site is at directive level; each count after 0, 1 and
+// 2 directive arguments and with three kinds of values.  If the extractor derived a path condition that is too weak
+// (the obligation proves although the code can reach the site with a shorter slice) the real code panics here and the
+// case is judged bad:panic.
+func c11SiteCases(repo string, emit func(dir, cfg string)) {
+	sites, err := facts.C11Sites(repo)
+	if err != nil {
+		panic("c11: index sites: " + err.Error())
+	}
+	dirOf := map[string]string{}
+	for d, pkg := range c11Pkg {
+		dirOf[pkg] = d
+	}
+	vals := func(n, kind int) []string {
+		pool := [][]string{{"a", "b", "c", "d", "e"}, {"5", "10", "1", "0", "2"}, {"/p", "5s", "1MB", "on", "x=y"}}[kind]
+		return append([]string{}, pool[:n]...)
+	}
+	seen := map[string]bool{}
+	for _, st := range sites {
+		d, ok := dirOf[filepath.Dir(st.File)]
+		if !ok {
+			continue // casket.go, controller.go, dispenser.go: not a directive
+		}
+		for n := 0; n <= st.K+2 && n <= 5; n++ {
+			for kind := 0; kind < 3; kind++ {
+				for _, lead := range [][]string{{}, {"/"}, {"/", "a"}} {
+					var cfg string
+					if len(st.Keywords) == 0 {
+						cfg = c11Config(d, append(append([]string{}, lead...), vals(n, kind)...), nil, false, "")
+						if !seen[cfg] {
+							seen[cfg] = true
+							emit(d, cfg)
+						}
+						cfg = c11Config(d, append(append([]string{}, lead...), vals(n, kind)...), [][]string{}, true, "")
+						if !seen[cfg] {
+							seen[cfg] = true
+							emit(d, cfg)
+						}
+						continue
+					}
+					for _, kw := range st.Keywords {
+						cfg = c11Config(d, lead, [][]string{append([]string{kw}, vals(n, kind)...)}, true, "")
+						if !seen[cfg] {
+							seen[cfg] = true
+							emit(d, cfg)
+						}
+						// the keyword as a directive argument as well (`tls off`, `errors visible`, `rewrite not …`)
+						cfg = c11Config(d, append([]string{kw}, vals(n, kind)...), nil, false, "")
+						if !seen[cfg] {
+							seen[cfg] = true
+							emit(d, cfg)
+						}
+					}
+				}
+			}
+		}
+	}
+}
+
 func c11SetupGen(g *hx.Gen) {
 	repo := os.Getenv("VERIF_REPO")
 	if repo == "" {
@@ -560,6 +623,11 @@ func c11SetupGen(g *hx.Gen) {
 	sort.Strings(dirs)
 	r := g.Rng
 	all := append(append([]string{}, c11Core...), c11More...)
+	c11SiteCases(repo, func(d, cfg string) {
+		if c11KeysOK(cfg) {
+			g.Case(d, hx.HS(cfg))
+		}
+	})
 	for _, d := range dirs {
 		own, helper := c11Vocab(repo, c11Pkg[d])
 		vocab := append(append([]string{}, own...), helper...)
